@@ -4,6 +4,7 @@
 import Rsactor.Inv.NetInv
 import Rsactor.Ties.feature_sites_shape
 import Rsactor.Ties.ask_protocol_shape
+import Rsactor.Ties.timeout_wrappers_shape
 
 namespace Rsactor.Props.C14
 open Rsactor Rsactor.Net Rsactor.Extracted Rsactor.GraphSpec
@@ -125,5 +126,7 @@ example : ∃ n, run? init [.ask 1 2, .ask 2 3, .ask 3 1] = some n ∧
 /-! ### ties to the source -/
 -- @tie Rsactor.Ties.feature_sites_shape
 -- @tie Rsactor.Ties.ask_protocol_shape
+-- a timed ask is `timeout(d, self.ask(msg))`: the protocol above (check, insert, panic) applies to it whatever the budget
+-- @tie Rsactor.Ties.timeout_wrappers_shape
 
 end Rsactor.Props.C14
